@@ -25,7 +25,7 @@ func init() {
 			"(R-EVREMAP) calAndSetEventNode rebuilds node array and parent table entry by entry in step (an event node mirrors its real node), records every appended node's position in the index table keyed by its original index, and relabels scIdx/parents through the right table under the -1 guards: the parent table Dump reads in event mode is an exact relabelling. " +
 			"(R-FMTDATA) in every fmt formatting call of the package the format string is built from constants and integers only, program text is an operand; (R-INTBASE) every integer parse of the lexer/parser reads base 10. Constants of Go types the lexer cannot produce (ConstantMap floats, maps folded from user operators) are outside the property's literal domain. NOT decided: that the rebuilt text equals the program on every binding (fast-operator layout, folded constants), idempotence of dump/compile.",
 		Run:       runC13,
-		Witnesses: append(append(append([]Witness{}, delWitnessesC13...), piecewiseListWitnesses...), c13Witnesses...),
+		Witnesses: append(append(append(append([]Witness{}, delWitnessesC13...), piecewiseListWitnesses...), listValuePhiWitnesses...), c13Witnesses...),
 	})
 }
 
@@ -229,12 +229,10 @@ func ruleLeafTypes(w *World, r *Report) {
 			if kc, okk := literalKind(al); !okk || kc != k.constant {
 				return
 			}
-			t := unwrapIface(st.Val).Type()
-			if _, isIface := t.Underlying().(*types.Interface); isIface {
-				// valNode(v Value): look at the call sites' argument types
-				return
+			// valNode(v Value) stores its parameter: the call sites' argument types are looked at below
+			for _, t := range dynTypesOf(st.Val, map[ssa.Value]bool{}) {
+				created[types.TypeString(t, nil)] = true
 			}
-			created[types.TypeString(t, nil)] = true
 		})
 		// arguments of valNode
 		EachInstr(g, func(in ssa.Instruction) {
@@ -243,8 +241,7 @@ func ruleLeafTypes(w *World, r *Report) {
 				return
 			}
 			arg := c.Call.Args[len(c.Call.Args)-1]
-			t := unwrapIface(arg).Type()
-			if _, isIface := t.Underlying().(*types.Interface); !isIface {
+			for _, t := range dynTypesOf(arg, map[ssa.Value]bool{}) {
 				created[types.TypeString(t, nil)] = true
 			}
 		})
@@ -833,3 +830,30 @@ var c13Witnesses = append(append(evRemapWitnesses, wave3WitnessesC13...), []Witn
 	{Name: "benign-string-builder-for-quotes", Benign: true, Edits: []Edit{
 		{File: "util.go", Old: "			sb.WriteString(`\"` + s + `\"`)", New: "			quoted := \"\\\"\" + s + \"\\\"\"\n			sb.WriteString(quoted)"}}},
 }...)
+
+
+// dynTypesOf lists the concrete types an interface value can hold as far as they are visible: the operand type of a
+// conversion to the interface, through phis (`var val Value = strs; if … { val = ints }`). A value of unknown origin
+// (a parameter, a map lookup) contributes nothing.
+func dynTypesOf(v ssa.Value, seen map[ssa.Value]bool) []types.Type {
+	if seen[v] {
+		return nil
+	}
+	seen[v] = true
+	switch x := v.(type) {
+	case *ssa.MakeInterface:
+		return dynTypesOf(x.X, seen)
+	case *ssa.Phi:
+		var out []types.Type
+		for _, e := range x.Edges {
+			out = append(out, dynTypesOf(e, seen)...)
+		}
+		return out
+	case *ssa.ChangeInterface:
+		return dynTypesOf(x.X, seen)
+	}
+	if _, isIface := v.Type().Underlying().(*types.Interface); isIface {
+		return nil
+	}
+	return []types.Type{v.Type()}
+}
